@@ -275,7 +275,7 @@ func validateAgainstNative(p *Program, u *Unit, results []*HarnessResult, tier s
 
 func runConcrete(p *Program, u *Unit, hs *HarnessSpec, tier string, vals []replayVal) (obs, failed []string, end pathEnd) {
 	ts := u.tierFor(hs, tier)
-	solver, err := NewSolver(solverArgv(), 10000)
+	solver, err := NewSolver(solverArgvFor(u), 10000)
 	if err != nil {
 		return nil, nil, pathEnd{"unsupported", err.Error()}
 	}
